@@ -56,6 +56,7 @@ func cmdReplay(args []string) {
 			if err != nil {
 				vh.Die("%s", err)
 			}
+			w.KeepLists = (int(lm)+rot)%2 == 0
 			worlds[s+string(rune('0'+int(lm)))] = w
 		}
 		if s == "refl" { // one world per binding mode: by name / RegisterType / three spellings of @go
@@ -64,6 +65,7 @@ func cmdReplay(args []string) {
 				if err != nil {
 					vh.Die("%s", err)
 				}
+				w.KeepLists = (int(b)+rot)%2 == 0
 				worlds["refl"+string(rune('0'+int(b)))] = w
 			}
 		}
